@@ -52,7 +52,7 @@ def gen_case(run_seed: int, tier: str, index: int = 0) -> dict:
     params = dict(
         n_nodes=r.choice([1, 3, 5, 8, 12]), n_inputs=r.choice([0, 1, 2]), n_inits=r.choice([0, 1, 2, 3]), n_outputs=r.choice([1, 2]),
         n_functions=r.choice([0, 1, 2]), depth=r.choice([0, 1, 2]), typed=r.random() < 0.6, unsorted=r.random() < 0.3, p_if=r.choice([0.15, 0.35]),
-        metadata=r.random() < 0.5, init_as_input=r.choice([0.0, 0.4]), ir_version=r.choice([8, 9, 10, 10, 11, 12]), p_multi=0.2,
+        metadata=r.random() < 0.5, init_as_input=r.choice([0.0, 0.4]), ir_version=r.choice([8, 9, 10, 10, 11, 12]), p_multi=0.2, name_style=r.choice([0, 0, 1]),
     )  # fmt: skip
     edits = [[r.choice(EDITS), r.randrange(1 << 20), r.randrange(1 << 20)] for _ in range(r.choice([0, 2, 5, 8, 12]))]
     hist = ops.bootstrap_ops() + ops.gen_ops(r, r.choice([15, 30, 50]))
